@@ -615,9 +615,10 @@ def gen_files(ctx, n, bufsize, key_lines):
 
 def check_linefiles_safety(ctx):
     n = ctx.n(600, 20000)
-    cases = corpus({"aws", "rp"})
-    cases += ["aws " + hx(f) for f in gen_files(ctx, n, 1024, True)]
-    cases += ["rp " + hx(f) for f in gen_files(ctx, n, 2048, False)]
+    gen = ["aws " + hx(f) for f in gen_files(ctx, n, 1024, True)]
+    gen += ["rp " + hx(f) for f in gen_files(ctx, n, 2048, False)]
+    ctx.rng.shuffle(gen)          # spread the long-line cases (slow in the model) over the shards
+    cases = corpus({"aws", "rp"}) + gen
     run_all(ctx, "linefiles-safety", cases, None, None,
             "aws_readkeys / readpass_file on files (scratch dir under /tmp) with lines of bufsize-3..3*bufsize "
             "characters with/without terminator, NUL bytes, CR/LF mixes, missing/duplicate keys, under ASan+UBSan "
